@@ -19,6 +19,34 @@ CHECKS = {
             "DESIGN.md §3 C14"),
 }
 
+CHECKS.update({
+    "C01": ("exploration",
+            "reference-model oracle: an independent bit-level semantics of each generated design (R1) compared with two "
+            "independent readings of the real output (VLSIR package reader R2, SPICE text reader R3)",
+            "Every generated design (exhaustive kernel family of connection-expression shapes, structural kernels, seeded "
+            "random hierarchies) is built with the real library, exported, read back bit-for-bit and compared with an "
+            "independent meaning of the source design; leaf identity and parameters are checked with unique tags. Held on "
+            "the designs generated, which are bounded (widths <= 5, depth <= 5).",
+            "trusts hv.refsem (R1) as the meaning of a design and the netlisters' MSB-first reading of a package; "
+            "rejections of valid designs are counted, not alarmed",
+            "DESIGN.md §3 C01"),
+    "C03": ("exploration",
+            "runtime contracts on _slice_inner / width() / _resolve_sliceable plus a boundary oracle comparing .width and the "
+            "exported bits with Python's own list slicing, over an exhaustive index box",
+            "Exhaustive boxes of (parent kind, width, index) against Python list slicing as oracle, three-valued per case "
+            "(accepted-correct / rejected / wrong); contracts ride on every slice computed anywhere in the process.",
+            "Python's list slicing is the specification; acceptance only demanded where the statement demands it",
+            "DESIGN.md §3 C03"),
+    "C18": ("exploration",
+            "invariant hook on the real Module/Bundle setattr/add evaluated after every operation of enumerated edit "
+            "histories; differential export of final states; direct probes of the rejection clauses",
+            "All edit histories up to length 3 (4 on a reduced alphabet in thorough) over a 3-name alphabet and every attribute "
+            "kind, the namespace/view/get/getattr/parent invariant asserted after each operation; sampled final states are "
+            "exported and compared with a fresh module holding only the final mapping.",
+            "values are always fresh objects; invariant checked at quiescent points only",
+            "DESIGN.md §3 C18"),
+})
+
 NOT_APPLICABLE = {}
 
 
